@@ -791,33 +791,41 @@ class SymReal:
         return mkbool(a != b)
 
     def __lt__(self, o):
+        if isinstance(o, float) and o != o:
+            return False
         if isinstance(o, float) and math.isinf(o):
             return o > 0
         return self._cmp(o, "__lt__")
 
     def __le__(self, o):
+        if isinstance(o, float) and o != o:
+            return False
         if isinstance(o, float) and math.isinf(o):
             return o > 0
         return self._cmp(o, "__le__")
 
     def __gt__(self, o):
+        if isinstance(o, float) and o != o:
+            return False
         if isinstance(o, float) and math.isinf(o):
             return o < 0
         return self._cmp(o, "__gt__")
 
     def __ge__(self, o):
+        if isinstance(o, float) and o != o:
+            return False
         if isinstance(o, float) and math.isinf(o):
             return o < 0
         return self._cmp(o, "__ge__")
 
     def __eq__(self, o):
-        if isinstance(o, float) and math.isinf(o):
+        if isinstance(o, float) and (math.isinf(o) or o != o):
             return False
         r = self._cmp(o, "__eq__")
         return False if r is NotImplemented else r
 
     def __ne__(self, o):
-        if isinstance(o, float) and math.isinf(o):
+        if isinstance(o, float) and (math.isinf(o) or o != o):
             return True
         r = self._cmp(o, "__ne__")
         return True if r is NotImplemented else r
